@@ -6,6 +6,9 @@
 #include "vh/json.h"
 #include "vh/events.h"
 #include "galois/Galois.h"
+#ifdef VERIF_FLAVOUR_C
+#include "verif_rt.h"
+#endif
 #include "galois/Mem.h"
 #include "galois/runtime/Mem.h"
 #include "galois/runtime/PagePool.h"
@@ -41,10 +44,14 @@ static void logFree(int t, const Blk& b) {
 typedef galois::runtime::BumpWithMallocHeap<galois::runtime::FreeListHeap<galois::runtime::SystemHeap>> IterHeap;
 struct Heaps {
   galois::runtime::FixedSizeHeap f24{24}, f8{8}, f100{100};
+  galois::runtime::FixedSizeHeap f12{12}, f20{20}, f9{9};   // heaps 9, 10, 11: sizes between two multiples of 8
   galois::runtime::VariableSizeHeap var;
   IterHeap iter;
 };
 static const size_t FS[3] = {24, 8, 100};
+static const size_t FS2[3] = {12, 20, 9};
+static galois::runtime::FixedSizeHeap& fixedHeap(Heaps& H, int heap) { return heap == 0 ? H.f24 : heap == 1 ? H.f8 : heap == 2 ? H.f100 : heap == 9 ? H.f12 : heap == 10 ? H.f20 : H.f9; }
+static bool isFixed(int heap) { return heap <= 2 || (heap >= 9 && heap <= 11); }
 
 struct PtsObj { virtual ~PtsObj() {} virtual char* at(unsigned t) = 0; virtual size_t size() = 0; };
 template <size_t N> struct PtsImpl : PtsObj {
@@ -56,13 +63,20 @@ template <size_t N> struct PtsImpl : PtsObj {
 static PtsObj* mkPts(int k) {
   switch (k % 5) { case 0: return new PtsImpl<4>(); case 1: return new PtsImpl<8>(); case 2: return new PtsImpl<100>(); case 3: return new PtsImpl<128>(); default: return new PtsImpl<200>(); }
 }
+// per-thread storage objects by size class (powers of two from a cache line to 64 KB)
+static PtsObj* mkPtsSize(size_t n) {
+  switch (n) {
+  case 128: return new PtsImpl<128>(); case 256: return new PtsImpl<256>(); case 512: return new PtsImpl<512>(); case 1024: return new PtsImpl<1024>();
+  case 2048: return new PtsImpl<2048>(); case 4096: return new PtsImpl<4096>(); case 8192: return new PtsImpl<8192>(); default: return new PtsImpl<65536>();
+  }
+}
 
 static Blk doAlloc(Heaps& H, int heap, size_t req, int t, vh::Rng& r, std::vector<std::pair<PtsObj*, Blk>>* ptsLive,
                    std::vector<std::pair<galois::LargeArray<char>*, Blk>>* laLive) {
   Blk b{nullptr, 0, heap, (unsigned char)(1 + r.below(250))};
   size_t gran = 8;
   switch (heap) {
-  case 0: case 1: case 2: { auto& h = heap == 0 ? H.f24 : heap == 1 ? H.f8 : H.f100; req = FS[heap]; b.p = (char*)h.allocate(req); b.usable = req; break; }
+  case 0: case 1: case 2: case 9: case 10: case 11: { auto& h = fixedHeap(H, heap); req = heap <= 2 ? FS[heap] : FS2[heap - 9]; b.p = (char*)h.allocate(req); b.usable = req; gran = heap <= 2 ? 8 : 1; break; }
   case 3: { b.p = (char*)galois::runtime::Pow_2_BlockHeap::getInstance()->allocateBlock(req); b.usable = req; break; }
   case 4: {
     if (r.coin(1, 3)) { size_t got = 0; b.p = (char*)H.var.allocate(req, got); b.usable = got; if (got < req) req = got; }
@@ -101,7 +115,7 @@ static void seqHistory(uint64_t seed, int len, int h) {
   L->ev(64, ks("ev", "reset") + "," + ks("mode", "seq") + "," + kv("threads", 1) + "," + kv("seed", (long long)(seed % 1000000007)) + "," + kv("focus", h));
   int pages = 0;
   for (int i = 0; i < len; ++i) {
-    int heap = h >= 0 && r.coin(2, 3) ? h : (int)r.below(9);
+    int heap = h >= 0 && r.coin(2, 3) ? h : (int)r.below(12);
     int act = (int)r.below(10);
     if (act < 6 || live.empty()) {
       if (heap == 6 && ++pages > 24) continue;
@@ -116,7 +130,7 @@ static void seqHistory(uint64_t seed, int len, int h) {
       }
       logFree(0, b);
       switch (b.heap) {
-      case 0: H.f24.deallocate(b.p); break; case 1: H.f8.deallocate(b.p); break; case 2: H.f100.deallocate(b.p); break;
+      case 0: case 1: case 2: case 9: case 10: case 11: fixedHeap(H, b.heap).deallocate(b.p); break;
       case 3: galois::runtime::Pow_2_BlockHeap::getInstance()->deallocateBlock(b.p, b.usable); break;
       case 6: galois::runtime::pagePoolFree(b.p); --pages; break;
       }
@@ -137,7 +151,7 @@ static void seqHistory(uint64_t seed, int len, int h) {
     if (b.heap == 4 || b.heap == 5) continue;
     logFree(0, b);
     switch (b.heap) {
-    case 0: H.f24.deallocate(b.p); break; case 1: H.f8.deallocate(b.p); break; case 2: H.f100.deallocate(b.p); break;
+    case 0: case 1: case 2: case 9: case 10: case 11: fixedHeap(H, b.heap).deallocate(b.p); break;
     case 3: galois::runtime::Pow_2_BlockHeap::getInstance()->deallocateBlock(b.p, b.usable); break;
     case 6: galois::runtime::pagePoolFree(b.p); break;
     }
@@ -164,7 +178,7 @@ static void concurrent(uint64_t seed, unsigned threads, int opsPerThread) {
     auto release = [&](const Blk& b) {
       logFree(tid, b);
       switch (b.heap) {
-      case 0: H.f24.deallocate(b.p); break; case 1: H.f8.deallocate(b.p); break; case 2: H.f100.deallocate(b.p); break;
+      case 0: case 1: case 2: case 9: case 10: case 11: fixedHeap(H, b.heap).deallocate(b.p); break;
       case 3: galois::runtime::Pow_2_BlockHeap::getInstance()->deallocateBlock(b.p, b.usable); break;
       case 6: galois::runtime::pagePoolFree(b.p); break;
       }
@@ -173,6 +187,7 @@ static void concurrent(uint64_t seed, unsigned threads, int opsPerThread) {
       int act = (int)r.below(10);
       if (act < 5) {
         int heap = (int)r.below(4);
+        if (r.coin(1, 4)) heap = 9 + (int)r.below(3);
         if (r.coin(1, 40)) heap = 6;
         Blk b = doAlloc(H, heap, pickSize(heap, r, true), tid, r, nullptr, nullptr);
         if (b.p) mine.push_back(b);
@@ -196,7 +211,7 @@ static void concurrent(uint64_t seed, unsigned threads, int opsPerThread) {
   for (auto& row : box) for (auto& s : row) if (s.full) {
     logFree(0, s.b);
     switch (s.b.heap) {
-    case 0: H.f24.deallocate(s.b.p); break; case 1: H.f8.deallocate(s.b.p); break; case 2: H.f100.deallocate(s.b.p); break;
+    case 0: case 1: case 2: case 9: case 10: case 11: fixedHeap(H, s.b.heap).deallocate(s.b.p); break;
     case 3: galois::runtime::Pow_2_BlockHeap::getInstance()->deallocateBlock(s.b.p, s.b.usable); break;
     case 6: galois::runtime::pagePoolFree(s.b.p); break;
     }
@@ -205,6 +220,91 @@ static void concurrent(uint64_t seed, unsigned threads, int opsPerThread) {
   L->ev(64, ks("ev", "end"));
   L->flush();
 }
+
+// per-thread storage with an exhausted page: once the bump pointer has reached the end of the 2 MB per-thread page
+// every allocation is served from the free lists of offsets, splitting larger free blocks
+static void ptsExhausted(uint64_t seed, int ops) {
+  vh::Rng r(seed);
+  L->ev(64, ks("ev", "reset") + "," + ks("mode", "pts") + "," + kv("threads", 1) + "," + kv("seed", (long long)(seed % 1000000007)) + "," + kv("focus", 7));
+  std::vector<std::pair<PtsObj*, Blk>> live;
+  auto add = [&](size_t n) {
+    PtsObj* o = mkPtsSize(n);
+    Blk b{o->at(0), o->size(), 7, (unsigned char)(1 + r.below(250))};
+    logAlloc(0, 7, b.usable, b.p, b.usable, 128);
+    fill(b);
+    live.push_back({o, b});
+    return b;
+  };
+  auto drop = [&](size_t k) { if (!intact(live[k].second)) L->ev(0, ks("ev", "bad") + "," + ks("what", "canary") + "," + kv("h", 7)); logFree(0, live[k].second); delete live[k].first; live.erase(live.begin() + k); };
+  // the page is aligned to its size, so the offset of a block is its address modulo the page size
+  const size_t page = galois::substrate::allocSize();
+  Blk first = add(128);
+  size_t used = ((uintptr_t)first.p & (page - 1)) + 128;
+  // fill the page completely with 64 KB, 4 KB and 128 B objects (all sizes are multiples of 128)
+  for (size_t sz : {(size_t)65536, (size_t)4096, (size_t)128}) while (used + sz <= page) { add(sz); used += sz; }
+  // mirror of the free lists (counts per size class, as the unmodified algorithm keeps them): an allocation that no free
+  // block can serve terminates the process by design, so only servable requests are issued
+  std::vector<int> freeCls(31, 0);
+  auto clsOf = [](size_t n) { unsigned i = 7; while ((1u << i) < n) ++i; return i; };
+  for (int i = 0; i < ops; ++i) {
+    if (r.coin(1, 2) && live.size() > 4) { size_t k = r.below(live.size() - 1); freeCls[clsOf(live[k].second.usable)]++; drop(k); }   // never the very last block
+    else {
+      static const size_t cls[] = {128, 256, 512, 1024, 2048, 4096, 8192};
+      size_t want = cls[r.below(7)];
+      unsigned ll = clsOf(want), index = ll;
+      while (index < 31 && freeCls[index] == 0) ++index;
+      if (index == 31) continue;
+      freeCls[index]--;
+      if (index > ll) { size_t start = want, end = (size_t)1 << index; for (unsigned k = index - 1; start < end; --k) { freeCls[k]++; start += (size_t)1 << k; } }
+      add(want);
+    }
+  }
+  while (!live.empty()) drop(live.size() - 1);
+  L->ev(64, ks("ev", "end"));
+  L->flush();
+}
+
+#ifdef VERIF_FLAVOUR_C
+// page pool under controlled schedules: pages are allocated, freed by their owner and handed to other threads
+// that free them (the free list of a page belongs to the thread that first allocated it)
+static void ctlPages(uint64_t seed, unsigned threads, int opsPerThread) {
+  static Slot box[8][4];
+  for (auto& row : box) for (auto& s : row) s.full = 0;
+  L->ev(64, ks("ev", "reset") + "," + ks("mode", "ctlpage") + "," + kv("threads", threads) + "," + kv("seed", (long long)(seed % 1000000007)) + "," + kv("focus", 6));
+  galois::setActiveThreads(threads);
+  Heaps* none = nullptr;
+  verif::Config cfg;
+  cfg.mode = verif::M_CTL; cfg.seed = seed; cfg.switch_pct = 10 + (int)(seed % 70); cfg.pct_depth = (seed % 4 == 3) ? 1 + (int)((seed >> 8) % 3) : 0;
+  cfg.max_steps = 4000000; cfg.threads = threads;
+  verif::configure(cfg);
+  galois::on_each([&](unsigned tid, unsigned nt) {
+    vh::Rng r(seed * 131 + tid);
+    std::vector<Blk> mine;
+    auto release = [&](const Blk& b) { if (!intact(b)) L->ev(tid, ks("ev", "bad") + "," + ks("what", "canary") + "," + kv("h", 6)); logFree(tid, b); galois::runtime::pagePoolFree(b.p); };
+    for (int i = 0; i < opsPerThread; ++i) {
+      int act = (int)r.below(10);
+      if (act < 5 && mine.size() < 3) { Blk b = doAlloc(*none, 6, 0, tid, r, nullptr, nullptr); if (b.p) mine.push_back(b); }
+      else if (act < 7 && !mine.empty()) { size_t k = r.below(mine.size()); release(mine[k]); mine.erase(mine.begin() + k); }
+      else if (!mine.empty()) {
+        unsigned to = (unsigned)r.below(nt);
+        Slot& s = box[to][r.below(4)];
+        int expect = 0;
+        if (__atomic_compare_exchange_n(&s.full, &expect, 2, false, __ATOMIC_ACQ_REL, __ATOMIC_RELAXED)) {
+          size_t k = r.below(mine.size()); s.b = mine[k]; mine.erase(mine.begin() + k);
+          __atomic_store_n(&s.full, 1, __ATOMIC_RELEASE);
+        }
+      }
+      for (auto& s : box[tid]) if (__atomic_load_n(&s.full, __ATOMIC_ACQUIRE) == 1) { Blk b = s.b; __atomic_store_n(&s.full, 0, __ATOMIC_RELEASE); release(b); }
+    }
+    for (auto& b : mine) release(b);
+  });
+  verif::Config off;
+  verif::configure(off);
+  for (auto& row : box) for (auto& s : row) if (s.full) { logFree(0, s.b); galois::runtime::pagePoolFree(s.b.p); s.full = 0; }
+  L->ev(64, ks("ev", "end"));
+  L->flush();
+}
+#endif
 
 int main(int argc, char** argv) {
   if (argc < 5) { fprintf(stderr, "usage: alloc out seed tier mode\n"); return 2; }
@@ -218,8 +318,14 @@ int main(int argc, char** argv) {
   vh::Rng rng(seed);
   if (mode == "seq") {
     // the very first operation on a fresh heap is a case of its own
-    for (int h = 0; h < 9; ++h) for (int k = 0; k < (thorough ? 40 : 8); ++k) seqHistory(rng.next(), 1 + k % 4, h);
-    for (int k = 0; k < (thorough ? 600 : 120); ++k) seqHistory(rng.next(), 20 + (int)rng.below(60), k % 10 - 1);
+    for (int h = 0; h < 12; ++h) for (int k = 0; k < (thorough ? 40 : 8); ++k) seqHistory(rng.next(), 1 + k % 4, h);
+    for (int k = 0; k < (thorough ? 600 : 120); ++k) seqHistory(rng.next(), 20 + (int)rng.below(60), k % 13 - 1);
+  } else if (mode == "pts") {
+    ptsExhausted(rng.next(), thorough ? 4000 : 800);
+#ifdef VERIF_FLAVOUR_C
+  } else if (mode == "ctlpage") {
+    for (int k = 0; k < (thorough ? 1500 : 300); ++k) ctlPages(rng.next(), 2 + (unsigned)rng.below(2), 12 + (int)rng.below(14));
+#endif
   } else {
     unsigned maxT = std::min(galois::substrate::getThreadPool().getMaxThreads(), thorough ? 16u : 8u);
     for (int k = 0; k < (thorough ? 120 : 30); ++k) concurrent(rng.next(), 1 + (unsigned)rng.below(maxT), thorough ? 400 : 150);
